@@ -65,7 +65,7 @@ def cases() -> Any:
         # what a failing attempt raises: ordinary exceptions, a BaseException, and errors of taskiq's own client API
         # (a task waiting for a sub-task, kicking while the broker is down, rejecting) - all of them are failures
         subclass=st.sampled_from([False, False, True]),
-        fail_kind=st.sampled_from(["ValueError", "ValueError", "KeyError", "MyBase", "TaskiqResultTimeoutError", "SendTaskError", "TaskRejectedError", "ResultGetError"]),
+        fail_kind=st.sampled_from(["ValueError", "ValueError", "KeyError", "MyBase", "CancelledError", "SystemExit", "TaskiqResultTimeoutError", "SendTaskError", "TaskRejectedError", "ResultGetError"]),
         # a second call of the same task handled by the same middleware instance (own labels, own outcome sequence)
         second=st.one_of(st.none(), st.none(), st.fixed_dictionaries(dict(
             outs=st.one_of(prefix, free),
@@ -92,6 +92,10 @@ def make_failure(kind: str) -> BaseException:
         return te.TaskiqResultTimeoutError(timeout=1.5)
     if kind == "MyBase":
         return MyBase("f")
+    if kind == "CancelledError":
+        return asyncio.CancelledError()       # what awaiting a cancelled inner future raises; the execution itself is not cancelled
+    if kind == "SystemExit":
+        return SystemExit(3)
     if hasattr(te, kind):
         return getattr(te, kind)()
     return {"ValueError": ValueError, "KeyError": KeyError}[kind]("f")
@@ -194,7 +198,7 @@ def run_case(c: Dict[str, Any]) -> Outcome:
                 msgs.append((m, tm))
                 try:
                     await r.callback(m.message)
-                except Exception as exc:  # noqa: BLE001 - the delivery callback is not supposed to raise
+                except BaseException as exc:  # noqa: BLE001 - the delivery callback is not supposed to raise
                     cb_errors.append(f"{type(exc).__name__}: {exc}")
             guards.append(guard)
         return runs, saves, seen
